@@ -439,6 +439,8 @@ class Evaluator:
             newv = Term('stored', (base,), uid=fresh_serial(), kind=getattr(base, 'kind', 'unknown'))
             newv = term_as_num(newv, True, getattr(base, 'kind', None)) if isinstance(base, Num) else newv
             pre = self._prefix_store(base, idx, v)
+            if pre is None:
+                pre = self._whole_store(base, idx, v)
             if pre is not None:
                 newv = pre
             self.rebind(t.value, newv, st)
@@ -446,6 +448,24 @@ class Evaluator:
             self.unsupported(st, node, 'starred assignment')
         else:
             self.unsupported(st, node, f"assignment target {type(t).__name__}")
+
+    def _whole_store(self, base, idx, v) -> Optional[Val]:
+        """`a[:] = v` / `a[:len(a)] = v` (also as `+=`, where v is already a[...] + rhs) with v of the same extent: a holds the elements of v"""
+        if not (isinstance(base, Num) and base.length is not None and isinstance(idx, Term) and idx.head == 'slice' and len(idx.args) == 3):
+            return None
+        lo, hi, step = idx.args
+        if not ((isinstance(lo, Const) and lo.v is None) or (isinstance(lo, Num) and lo.is_const() and lo.const() == 0)):
+            return None
+        if not ((isinstance(hi, Const) and hi.v is None) or (isinstance(hi, Num) and hi.length is None and hi.r == base.length)):
+            return None
+        if not ((isinstance(step, Const) and step.v is None) or (isinstance(step, Num) and step.is_const() and step.const() == 1)):
+            return None
+        if not (isinstance(v, Num) and v.length is not None and v.length == base.length):
+            return None
+        out = Num(v.r, v.length, base.kind)
+        from .dtypes import dtype_of
+        out.dt = dtype_of(base)
+        return out
 
     def _prefix_store(self, base, idx, v) -> Optional[Val]:
         """`buf[:L] = a` on a freshly filled buffer of N copies of c, with L = len(a): the array a ++ fill(c, N - L)"""
@@ -541,7 +561,7 @@ class Evaluator:
                         for x in ast.walk(t):
                             if isinstance(x, ast.Name) and isinstance(x.ctx, ast.Store):
                                 names.add(x.id)
-                        if isinstance(t, ast.Subscript):
+                        if isinstance(t, ast.Subscript) and ast.unparse(t.value) not in {ast.unparse(x_) for x_ in stores}:
                             stores.append(t.value)
                         if isinstance(n, ast.AugAssign) and isinstance(t, ast.Name):
                             names.add(t.id)
@@ -734,6 +754,33 @@ class Evaluator:
                 blen = term_as_num(bt, True).length
                 if blen == ctx.hi:
                     out[tgt.id] = Num(sym.subst(v.r, back), ctx.hi, 'ndarray')
+        if len(stores) == 1 and not apps and not stores[0].guard[len(st.guard):] and isinstance(stores[0].data.get('target_expr'), ast.Name) \
+                and stores[0].data['target_expr'].id not in out:
+            # `for k in range(len(a)): a[k] = v(k)` (or `+=`) on an existing array: every slot is written once, at its own iteration, so a read of
+            # a[k] inside v(k) is the value before the loop; reads of other slots would be loop-carried and are not summarised
+            e = stores[0]
+            tgt = e.data['target_expr']
+            idx, v = e.data['index'], e.data['value']
+            before = st.env.get(tgt.id)
+            if isinstance(before, Num) and before.length is not None and before.length == ctx.hi and isinstance(idx, Num) and idx.length is None \
+                    and idx.r == ctx.sym and isinstance(v, Num) and v.length is None:
+                mapping, ok_ = {}, True
+                for a_ in sym.all_atoms(v.r):
+                    if sym.ATOMS.head(a_) != 'el':
+                        continue
+                    ref_, ix_ = sym.ATOMS.args(a_)
+                    t_ = ref_.term if isinstance(ref_, Ref) else None
+                    if isinstance(t_, Term) and t_.head == 'loopstate' and t_.uid == ctx.lid:
+                        if isinstance(ix_, Rat) and ix_ == ctx.sym and veq(t_.args[0], before):
+                            mapping[a_] = before.at(ctx.sym).r
+                        else:
+                            ok_ = False
+                if ok_ and not any(isinstance(t_, Term) and t_.head in ('loopvar', 'loopstate') and t_.uid == ctx.lid
+                                   for t_ in walk_vals(Num(sym.subst(v.r, mapping) if mapping else v.r))):
+                    nv = Num(sym.subst(sym.subst(v.r, mapping) if mapping else v.r, back), ctx.hi, before.kind)
+                    from .dtypes import dtype_of
+                    nv.dt = dtype_of(before)
+                    out[tgt.id] = nv
         return out
 
     def element_of(self, a: Val, idx: Rat) -> Val:
@@ -1051,6 +1098,8 @@ class Evaluator:
             return vals
         g = e.generators[0]
         it = self.eval(g.iter, st)
+        if isinstance(it, Term) and it.head == 'iter' and it.args and isinstance(it.args[0], (Num, Tup)):
+            it = it.args[0]             # a fresh iterator over a sequence visits its elements in order
         sub = st.clone()
         lid = fresh_serial()
         csym = sym.A('sym', f"$c#{lid}")
@@ -1504,6 +1553,13 @@ class Evaluator:
                 return self.call_lib(fn.ref, pos, kw, star_kw, st, node)
             if fn.fkind == 'builtin':
                 return self.call_builtin(fn, pos, kw, star_kw, st, node)
+        if isinstance(fn, Term) and fn.head == 'partial' and fn.args:
+            # functools.partial(f, *a, **k)(*b, **c) == f(*a, *b, **{**k, **c})
+            inner = fn.args[0]
+            kw2 = dict(fn.kwargs)
+            star0 = kw2.pop('**', None)
+            kw2.update(kw)
+            return self.call(inner, list(fn.args[1:]) + list(pos), kw2, star_kw if star_kw is not None else star0, st, node)
         # calling an opaque value (parameter callables, spline objects, classes passed as parameters)
         t = Term('apply', (fn,) + tuple(pos), list(kw.items()) + ([('**', star_kw)] if star_kw is not None else []),
                  kind='unknown', node=node)
@@ -1574,6 +1630,17 @@ class Evaluator:
         if name.startswith('ndarray.') or name.startswith('method.'):
             meth = name.split('.', 1)[1]
             recv = fn.self_val
+            if isinstance(recv, Const) and isinstance(recv.v, str) and meth in PURE_STR_METHODS and all(isinstance(a_, Const) for a_ in pos) \
+                    and all(isinstance(a_, Const) for a_ in kw.values()) and star_kw is None:
+                # constant folding of a pure string method on literals ('{}_x'.format('reference'), name.replace('-', '_'), ...)
+                try:
+                    out_ = getattr(recv.v, meth)(*[a_.v for a_ in pos], **{k_: a_.v for k_, a_ in kw.items()})
+                    if isinstance(out_, (str, bool, int)) or out_ is None:
+                        return Const(out_) if not isinstance(out_, int) or isinstance(out_, bool) else Num(C(out_))
+                    if isinstance(out_, (list, tuple)) and all(isinstance(x_, str) for x_ in out_):
+                        return Tup([Const(x_) for x_ in out_], 'list' if isinstance(out_, list) else 'tuple')
+                except Exception:
+                    pass
             h = METHOD_HANDLERS.get(meth)
             if h is None and meth in MIRRORED_METHODS and ((isinstance(recv, Num) and recv.length is not None) or getattr(recv, 'kind', '') in ('ndarray', 'ndarray2d')):
                 # a.m(...) of an array is numpy.m(a, ...): one canonical form for both spellings
@@ -1687,6 +1754,8 @@ BUILTINS = {'setattr', 'slice', 'len', 'int', 'float', 'abs', 'min', 'max', 'ran
             'divmod', 'pow', 'id', 'repr', 'format'}
 
 OPTIONAL_LIBS = {'lib:os.environ.get', 'lib:os.getenv', 'lib:re.match', 'lib:re.search', 'lib:re.fullmatch', 'lib:shutil.which'}   # None when absent
+PURE_STR_METHODS = {'format', 'replace', 'lower', 'upper', 'strip', 'lstrip', 'rstrip', 'startswith', 'endswith', 'split', 'rsplit', 'join', 'removeprefix',
+                    'removesuffix', 'title', 'capitalize', 'partition', 'rpartition', 'zfill', 'count', 'find', 'index', 'translate', 'casefold', 'isdigit'}
 MIRRORED_METHODS = {'repeat', 'cumsum', 'clip', 'argmin', 'argmax', 'searchsorted', 'nonzero', 'dot', 'squeeze', 'var', 'any', 'all', 'prod', 'cumprod',
                     'argsort', 'diagonal', 'trace', 'ptp'}
 MUTATING_METHODS = {'append', 'extend', 'insert', 'sort', 'fill', 'put', 'resize', 'pop', 'remove', 'clear', 'reverse',
@@ -1934,6 +2003,50 @@ def h_path_join(ev, pos, kw, st, node):
     return Term('lib:os.path.join', pos, (), kind='str')
 
 
+def h_partial(ev, pos, kw, st, node):
+    if not pos:
+        return None
+    return Term('partial', tuple(pos), list(kw.items()), kind='callable', node=node)
+
+
+def h_operator(opname):
+    import ast as _ast
+    table = {'add': _ast.Add(), 'sub': _ast.Sub(), 'mul': _ast.Mult(), 'truediv': _ast.Div(), 'pow': _ast.Pow(), 'floordiv': _ast.FloorDiv(), 'mod': _ast.Mod()}
+    cmp_ = {'lt': _ast.Lt(), 'le': _ast.LtE(), 'gt': _ast.Gt(), 'ge': _ast.GtE(), 'eq': _ast.Eq(), 'ne': _ast.NotEq()}
+
+    def h(ev, pos, kw, st, node):
+        if len(pos) != 2 or kw:
+            return None
+        if opname in table:
+            return ev.binop(table[opname], pos[0], pos[1], st, node)
+        return ev.compare(cmp_[opname], pos[0], pos[1], st, node)
+    return h
+
+
+def h_ptp(ev, pos, kw, st, node):
+    v = ev.as_num(_arg(pos, kw, 0, 'a'), True)
+    if v is None or v.length is None or (set(kw) - {'a'}) or len(pos) > 1:
+        return None
+    return Num(sym.mk_reduce('Max', v.r, v.length) - sym.mk_reduce('Min', v.r, v.length))
+
+
+def h_fromiter(ev, pos, kw, st, node):
+    """fromiter(<comprehension / sequence>, dtype[, count]): the array of its elements"""
+    it = _arg(pos, kw, 0, 'iter')
+    if it is None:
+        return None
+    cnt = kw.get('count', pos[2] if len(pos) > 2 else None)
+    a = it if isinstance(it, Num) and it.length is not None else (ev.as_num(it, True) if isinstance(it, Term) and it.kind in ('list', 'ndarray') else None)
+    if a is None or a.length is None:
+        return None
+    if cnt is not None and not (isinstance(cnt, Num) and cnt.length is None and (cnt.r == a.length or (cnt.is_const() and cnt.const() == -1))):
+        return None
+    out = Num(a.r, a.length, 'ndarray')
+    from .dtypes import tag_of_dtype_arg
+    out.dt = tag_of_dtype_arg(kw.get('dtype', pos[1] if len(pos) > 1 else None))
+    return out
+
+
 def h_full(ev, pos, kw, st, node):
     """full(n, c): n copies of c (1-D)"""
     shape, fv = _arg(pos, kw, 0, 'shape'), _arg(pos, kw, 1, 'fill_value')
@@ -2008,7 +2121,9 @@ def h_ravel(ev, pos, kw, st, node):
 
 
 LIB_HANDLERS = {
-    'numpy.linspace': h_linspace, 'numpy.ravel': h_ravel, 'numpy.full': h_full, 'numpy.pad': h_pad,
+    'numpy.linspace': h_linspace, 'numpy.ravel': h_ravel, 'numpy.full': h_full, 'numpy.pad': h_pad, 'numpy.ptp': h_ptp, 'numpy.fromiter': h_fromiter,
+    'functools.partial': h_partial,
+    **{'operator.' + n_: h_operator(n_) for n_ in ('add', 'sub', 'mul', 'truediv', 'pow', 'floordiv', 'mod', 'lt', 'le', 'gt', 'ge', 'eq', 'ne')},
     'numpy.asarray': h_asarray, 'numpy.asanyarray': h_asarray, 'numpy.array': h_asarray,
     'numpy.ascontiguousarray': h_asarray, 'numpy.atleast_1d': h_asarray,
     'numpy.copy': h_asarray, 'numpy.append': h_append, 'numpy.concatenate': h_concatenate, 'numpy.insert': h_insert, 'numpy.hstack': h_concatenate,
